@@ -74,16 +74,43 @@ theorem gen_DateInterval_inter_eq (A B : DateInterval) : Gen.C18.DateInterval.in
 theorem gen_DateInterval_intersection_eq (A B : DateInterval) : Gen.C18.DateInterval.intersection A B = A.inter B :=
   gen_DateInterval_inter_eq A B
 
-theorem gen_DateInterval_union_eq (A B : DateInterval) : Gen.C18.DateInterval.union A B = A.union B := by
+/-- the builtin `len()` accepts what `__len__` returns when it is a size: non-negative and at most `sys.maxsize` -/
+def LenOk (I : DateInterval) : Prop := 0 ≤ I.len ∧ I.len ≤ 9223372036854775807
+
+theorem pyLen_ok (n : Int) (h0 : 0 ≤ n) (h1 : n ≤ 9223372036854775807) : Gen.pyLen n = .ok n := by
+  unfold Gen.pyLen
+  rw [if_neg (by omega), if_neg (by omega)]
+
+/-- every interval the constructor returns (end not before start) on day numbers of any calendar has such a length -/
+theorem lenOk_of_new (s e : LDate) (I : DateInterval) (h : DateInterval.new s e = .ok I)
+    (hb : e.day - s.day < 9223372036854775807) : LenOk I := by
+  unfold DateInterval.new LDate.lt at h
+  by_cases hc : s.cal = e.cal
+  · by_cases hd : e.day < s.day
+    · simp [hc, hd, bind, Except.bind] at h
+    · simp [hc, hd, bind, Except.bind] at h
+      subst h
+      unfold LenOk DateInterval.len
+      constructor <;> simp only <;> omega
+  · simp [hc] at h
+
+/-- `__or__`; the two `len()` calls need the lengths to be sizes (`LenOk`, true of every constructed interval) -/
+theorem gen_DateInterval_union_eq (A B : DateInterval) (hA : LenOk A) (hB : LenOk B) :
+    Gen.C18.DateInterval.union A B = A.union B := by
   unfold Gen.C18.DateInterval.union DateInterval.union
   rw [gen_DateInterval_validateInterval_eq]
-  simp only [gen_DateInterval_len_eq, gen_DateInterval_new_eq]
+  simp only [gen_DateInterval_len_eq, gen_DateInterval_new_eq, pyLen_ok _ hA.1 hA.2, pyLen_ok _ hB.1 hB.2]
   by_cases h : B.s.cal = A.s.cal
   · simp only [h, ne_eq, not_true_eq_false, if_false, bind, Except.bind]
   · simp only [h, ne_eq, not_false_eq_true, if_true, bind, Except.bind]
 
-theorem gen_DateInterval_unionMethod_eq (A B : DateInterval) : Gen.C18.DateInterval.unionMethod A B = A.union B :=
-  gen_DateInterval_union_eq A B
+theorem gen_DateInterval_unionMethod_eq (A B : DateInterval) (hA : LenOk A) (hB : LenOk B) :
+    Gen.C18.DateInterval.unionMethod A B = A.union B :=
+  gen_DateInterval_union_eq A B hA hB
+
+/-- outside `LenOk` the code differs from the model on purpose: `len()` of a negative `__len__` raises (such an interval
+    cannot be built through the constructor) -/
+example : Gen.C18.DateInterval.union ⟨⟨0, 5⟩, ⟨0, 1⟩⟩ ⟨⟨0, 3⟩, ⟨0, 4⟩⟩ = .error .valueError := by decide
 
 /-! ## Interval -/
 
